@@ -1,5 +1,6 @@
 import Femio.Props.C18
 import Femio.Props.C18Pyr
+import Femio.Props.C18Derived
 open Femio.C18
 #print axioms C18_pos_correct
 #print axioms C18_pyr_table
@@ -15,3 +16,5 @@ open Femio.C18
 #print axioms C18_positive_any_history
 #print axioms C18_positive_history_partial
 #print axioms C18_stored_metric_counterexample
+#print axioms C18_table_current
+#print axioms C18_stale_table_counterexample
